@@ -72,7 +72,17 @@ type nativeResult struct {
 	Stack   string   `json:"stack"`
 }
 
-const verifDir = "/verif"
+// verifDir is the root of the verification tree: the working directory when it
+// looks like one (so that a snapshot under another path uses its own harnesses,
+// models and evidence), else /verif.
+var verifDir = func() string {
+	if wd, err := os.Getwd(); err == nil {
+		if _, err := os.Stat(filepath.Join(wd, "harness", "props.json")); err == nil {
+			return wd
+		}
+	}
+	return "/verif"
+}()
 
 func writeEngineMod(repo, models, work string) (string, error) {
 	b, err := os.ReadFile(filepath.Join(repo, "go.mod"))
@@ -255,7 +265,11 @@ func cmdCheck(args []string) {
 		os.Exit(2)
 	}
 	var known []KnownFinding
-	if kb, err := os.ReadFile(filepath.Join(verifDir, "known_findings.json")); err == nil {
+	kfPath := filepath.Join(verifDir, "known_findings.json")
+	if pth := os.Getenv("VP_KNOWN_FINDINGS"); pth != "" {
+		kfPath = pth // self test of the known-finding plumbing
+	}
+	if kb, err := os.ReadFile(kfPath); err == nil {
 		if err := json.Unmarshal(kb, &known); err != nil {
 			fmt.Println("known_findings.json:", err)
 			os.Exit(2)
